@@ -15,6 +15,8 @@ def run(chk, prog, tier):
         CH = None
     if CH is not None:
         CH.c13_rules(chk, prog)
+    from checks import C15
+    C15.narrow_store_rule(chk, prog)      # every chunk size the setter accepts is the chunk size that is used
     chk.explanation = (
         "Decides: FIXED_NOP_LENGTH[k] has exactly k+1 bytes and is the recommended multi-byte NOP of that length; the "
         "nopN rows agree; the padding writer's table index and length are bounded (interval analysis); chunk "
